@@ -28,6 +28,9 @@ def scenarios(tier):
     out.append({'name': '_triangulate_polygons_by_length[any number of sides]', 'fn': 'scn_fan', 'kwargs': {'n': None}})
     out += [{'name': f'lemma: fan areas add up to the polygon area[{n} sides]', 'fn': 'scn_lemma_area', 'kwargs': {'n': n}} for n in (3, 4, 5, 6, 7, 8)]
     out.append({'name': 'lemma: in a convex ring every fan triangle has the orientation of the ring', 'fn': 'scn_lemma_orientation', 'kwargs': {}})
+    out.append({'name': 'triangulate_dataset: classification of the cells (cut point before the batches)', 'fn': 'scn_routing_classification', 'kwargs': {}})
+    out.append({'name': 'triangulate_dataset: a batch of convex cells of one length (cut point inside the batch loop)', 'fn': 'scn_routing_batches', 'kwargs': {}})
+    out.append({'name': 'triangulate_dataset: cells set aside go to ear clipping (cut point inside the last loop)', 'fn': 'scn_routing_concave', 'kwargs': {}})
     return out
 
 
@@ -132,6 +135,108 @@ def scn_lemma_orientation(c):
                 c.assume(mk_bool(_cross(a, b, w) >= 0))
         for t in range(n - 2):
             c.check(f'{n}-gon, fan triangle {t} is anticlockwise or flat (v0 lies left of edge t+1 -> t+2)', mk_bool(_cross(v[0], v[t + 1], v[t + 2]) >= 0))
+
+
+# ---------------------------------------------------------------------------------------------------------------------------------------
+# triangulate_dataset: which cells go where (intermediate assertions at cut points of the real body)
+def _routing_setup(c):
+    from contracts import base, inputs
+    from props.C11 import _accessors, _entry_points
+    from pyvc.contract import Contract
+    from pyvc.lib.stdlib import OpaqueValue
+    it = new_interp(use=base.POLY_KEYS)
+    ds, conv = inputs.make_convention(it, c, 'CFGrid2D')
+    c.entry_points = _entry_points(it)
+    _accessors(c, it)
+    from pyvc.api import method
+    method(it, conv, 'bind')
+    for name, what in (('_triangulate_polygons_by_length', 'fan'), ('_triangulate_concave_polygon', 'ear-clipping')):
+        def post(it_, a, what=what):
+            arg = a['polygons'] if 'polygons' in a else a['polygon']
+            c.event('triangulate', what, arg)
+            return OpaqueValue(what, arg=arg)
+        it.contracts[(MOD, name)] = Contract(MOD, name, post=post, verified_by='C14 fan scenarios' if what == 'fan' else 'bounded native (ear clipping)')
+    polys = base.abstract_polygons(conv)
+    return it, ds, conv, polys
+
+
+def _geometry_terms(c, polys, n):
+    from pyvc.lib.shapely_ import _fn
+    nc = _fn('num_coordinates', core.GeomSort, z3.IntSort())
+    hull = _fn('convex_hull', core.GeomSort, core.GeomSort)
+    p = polys.poly(zint(n))
+    return z3.Not(polys.hole(zint(n))), nc(p), nc(hull(p))
+
+
+def scn_routing_classification(c):
+    """Just before the batches are formed: which cells are set aside for ear clipping, which lengths remain."""
+    from pyvc.api import run_until
+    it, ds, conv, polys = _routing_setup(c)
+    f = fn(it, MOD, 'triangulate_dataset')
+    env = run_until(it, f, 'for unique_length in unique_lengths', lambda: call(it, f, ds))
+    c.check('the batching loop is reached', env is not None)
+    if env is None:
+        raise PathEnd()
+    concave, plen, uniq = env.lookup('polygon_is_concave'), env.lookup('polygon_length'), env.lookup('unique_lengths')
+    n = c.fresh_int('cell')
+    c.assume(n >= 0)
+    c.assume(n < polys.shape[0])
+    has, L, H = _geometry_terms(c, polys, n)
+    is_concave = z3.And(has, H != L)
+    sel = getattr(concave, 'selection', None)
+    c.check('the cells set aside for ear clipping are exactly the cells with geometry whose convex hull has another number of coordinates than the '
+            'cell itself (whatever the number of sides), in increasing order, each once', sel is not None and getattr(concave, 'sorted_unique', False)
+            and s_eq(core.truthy(sel.keep(n)), mk_bool(is_concave)))
+    c.check('cells without geometry, and the cells set aside, count as length 0; every other cell keeps its number of ring coordinates',
+            s_eq(plen.fn((n,)), mk_int(z3.If(z3.And(has, z3.Not(is_concave)), L, 0))))
+    occurs = getattr(uniq, 'occurs', None)
+    c.check('the batch lengths are the distinct values of that array', getattr(uniq, 'source_array', None) is plen or getattr(uniq, 'valueset_of', None) is plen
+            or occurs is not None)
+
+
+def scn_routing_batches(c):
+    """Inside the batching loop, for an arbitrary batch length: which cells form the batch and what is triangulated."""
+    from pyvc.api import run_until
+    it, ds, conv, polys = _routing_setup(c)
+    f = fn(it, MOD, 'triangulate_dataset')
+    env = run_until(it, f, 'for face_index, triangles in zip(', lambda: call(it, f, ds), stop_at=['for face_index in polygon_is_concave'])
+    if env is None:
+        raise PathEnd()         # the arbitrary batch length was 0 (skipped), or there is no batch at all: nothing to state on this path
+    u = env.lookup('unique_length')
+    sfi, spolys, tris = env.lookup('same_length_face_indices'), env.lookup('same_length_polygons'), env.lookup('vertex_triangles')
+    c.check('a batch length is never 0 (cells without geometry and cells set aside are skipped)', mk_bool(zint(u) != 0))
+    n = c.fresh_int('cell')
+    c.assume(n >= 0)
+    c.assume(n < polys.shape[0])
+    has, L, H = _geometry_terms(c, polys, n)
+    sel = getattr(sfi, 'selection', None)
+    c.check('the batch of length u holds exactly the convex-classified cells with u ring coordinates, in increasing order, each once',
+            sel is not None and getattr(sfi, 'sorted_unique', False) and s_eq(core.truthy(sel.keep(n)), mk_bool(z3.And(has, H == L, L == zint(u)))))
+    p = c.fresh_int('pos')
+    c.assume(p >= 0)
+    c.assume(p < sfi.shape[0])
+    cell = sfi.fn((p,))
+    g = spolys.fn((p,))
+    g = core.resolve_maybe(g) if isinstance(g, core.Maybe) else g
+    c.check('polygon p of the batch is the polygon of cell p of the batch', getattr(g, 'term', None) is not None and mk_bool(g.term == polys.poly(zint(cell))))
+    c.check('the bulk (fan) method is applied to exactly that batch', getattr(tris, 'what', None) == 'fan' and tris.info.get('arg') is spolys)
+
+
+def scn_routing_concave(c):
+    """In the last loop: every cell set aside is handed, with its own polygon and index, to ear clipping."""
+    from pyvc.api import run_until
+    it, ds, conv, polys = _routing_setup(c)
+    f = fn(it, MOD, 'triangulate_dataset')
+    env = run_until(it, f, '_add_triangles(int(face_index), triangles)', lambda: call(it, f, ds), occurrence=2,
+                    stop_at=['for face_index, triangles in zip(', 'assert current_face == total_triangles'])
+    if env is None:
+        raise PathEnd()
+    fi, poly, tris = env.lookup('face_index'), env.lookup('polygon'), env.lookup('triangles')
+    has, L, H = _geometry_terms(c, polys, fi)
+    c.check('a cell handed to ear clipping has geometry and was classified concave', mk_bool(z3.And(has, H != L)))
+    poly = core.resolve_maybe(poly) if isinstance(poly, core.Maybe) else poly
+    c.check('it is handed over with its own polygon', getattr(poly, 'term', None) is not None and mk_bool(poly.term == polys.poly(zint(fi))))
+    c.check('ear clipping is applied to exactly that polygon', getattr(tris, 'what', None) == 'ear-clipping' and tris.info.get('arg') is env.lookup('polygon'))
 
 
 NATIVE = {'': 'triangulate'}
